@@ -834,7 +834,7 @@ def run_files(ctx, n, ftab_argc):
     import shutil
     from props import c14_xlsfile as xf
     rng = ctx.rng
-    tmp = os.path.join(vlib.CACHE, "tmp", "c14")
+    tmp = os.path.join(vlib.CACHE, "tmp", "c14-%d" % os.getpid())
     shutil.rmtree(tmp, ignore_errors=True)
     os.makedirs(tmp, exist_ok=True)
     g = Gen(ctx, "xls", ftab_argc)
@@ -911,7 +911,7 @@ import fmlagen as fg
 #  formula"; no class of this property is left)
 KNOWN_XLS_NAME = "K_XLS_NAME_FORMULA"
 KNOWN_XLSX_CDATA = "K_XLSX_NAME_CDATA"
-E2E_DIR = os.path.join(vlib.CACHE, "tmp", "c14")
+E2E_DIR = os.path.join(vlib.CACHE, "tmp", "c14-%d" % os.getpid())
 
 
 def _write(name, data):
